@@ -75,6 +75,15 @@ def cases(tier, seed):
             if L <= 2:
                 out.append(('pack', 'QU', (L,), mk))
                 out.append(('pack', 'IQUV', (L,), mk))
+            if L >= 2 and any(mk) and not all(mk):
+                # leaves with MORE axes than the mask: the mask selects along the leading axes (y = x[mask])
+                out.append(('pack', 'arr', (L, 2), mk))
+                out.append(('pack', 'arr', (L, L), mk))
+                out.append(('pack', 'IQU', (L, L), mk))
+    for m2 in [((True, False), (False, True)), ((True, True), (False, True)), ((False, False), (True, False))]:
+        out.append(('pack', 'arr', (2, 2), m2))
+        out.append(('pack', 'arr', (2, 2, 2), m2))
+        out.append(('pack', 'IQU', (2, 2, 3), m2))
     sl = ('s', None, None, None)
     A = ('a', (1, 0, 1))
     B = ('a', (0, -1, 0))
@@ -275,7 +284,7 @@ def _pack_case(key, twin):
         from furax.landscapes import StokesPyTree
         ins = StokesPyTree.class_for(kind).structure_for(shape, f64)
     n_out = int(mask_np.sum())
-    outs = jax.tree.map(lambda l: S(n_out), ins)
+    outs = jax.tree.map(lambda l: S(*np.empty(l.shape)[mask_np].shape), ins)
     ctx = E.Ctx()
     dec = Decider()
     x, y = E.symbols('x', ins), E.symbols('y', outs)
